@@ -1,3 +1,4 @@
+import Oidc.Shapes
 import Oidc.Proofs.Sched
 import Oidc.Facts
 /-! # C05 — concurrent requests are handled independently (property theorems only)
@@ -61,5 +62,10 @@ theorem fixed_pool_example :
                          ths := fun i => if i = 0 then ⟨A, none, []⟩ else if i = 1 then ⟨B, none, []⟩ else idle }
     ((runSched 0 s0 [0, 0, 1, 0, 0, 1]).ths 0).out = [7] ∧ ((runSched 0 s0 [0, 0, 1, 0, 0, 1]).ths 1).out = [100] :=
   Oidc.Sched.fixed_pool_example
+
+/-! obligations against the regenerated program text: the functions these theorems rest on read, statement for statement, as
+    they did when the model was written after them (`Oidc/Shapes.lean`) -/
+theorem text_JWKCache_GetJWKS_ok : Oidc.Shapes.Text_JWKCache_GetJWKS := by unfold Oidc.Shapes.Text_JWKCache_GetJWKS; rfl
+theorem text_JWKCache_Cleanup_ok : Oidc.Shapes.Text_JWKCache_Cleanup := by unfold Oidc.Shapes.Text_JWKCache_Cleanup; rfl
 
 end Oidc.Props.C05
